@@ -54,14 +54,25 @@ instance : BEq RTri := ⟨fun a b => triRotB a.t b.t⟩
 
 def rtris (l : List (List (List Bytes))) : List RTri := l.map RTri.mk
 
-/-- multiset difference `l1 − l2` -/
-def msub {α : Type} [BEq α] (l1 l2 : List α) : List α := l2.foldl (fun acc x => acc.erase x) l1
+/-- `l1 ⊆ l2` as multisets of classes of `==` (an equivalence relation): every element of `l1` has
+    at least as many equivalents in `l2` as in `l1` -/
+def subMultisetSlow {α : Type} [BEq α] (l1 l2 : List α) : Bool := l1.all fun x => decide (l1.count x ≤ l2.count x)
 
-/-- `l1 ⊆ l2` as multisets -/
-def subMultiset {α : Type} [BEq α] (l1 l2 : List α) : Bool := (msub l1 l2).isEmpty
+/-- element by element `==` (linear-time shortcut for the common case that nothing was reordered) -/
+def pointwiseEq {α : Type} [BEq α] : List α → List α → Bool
+  | [], [] => true
+  | a :: as, b :: bs => a == b && pointwiseEq as bs
+  | _, _ => false
+
+def subMultiset {α : Type} [BEq α] (l1 l2 : List α) : Bool := pointwiseEq l1 l2 || subMultisetSlow l1 l2
+
+/-- the same classes of `==` with the same multiplicities -/
+def eqMultisetSlow {α : Type} [BEq α] (l1 l2 : List α) : Bool := (l1 ++ l2).all fun x => l1.count x == l2.count x
+
+def eqMultiset {α : Type} [BEq α] (l1 l2 : List α) : Bool := pointwiseEq l1 l2 || eqMultisetSlow l1 l2
 
 /-- the same triangles with the same multiplicities, each up to rotation -/
-def sameTriangles (l1 l2 : List (List (List Bytes))) : Bool := (rtris l1).isPerm (rtris l2)
+def sameTriangles (l1 l2 : List (List (List Bytes))) : Bool := eqMultiset (rtris l1) (rtris l2)
 
 def sameSet {α : Type} [BEq α] (l1 l2 : List α) : Bool := l1.all l2.contains && l2.all l1.contains
 
@@ -137,11 +148,10 @@ def removalsDocumented (o : CleanupOpts) (g g' : Geometry) : Bool :=
   let tin := rtris (describesA g)
   let tout := rtris (describesA g')
   let degIn := g.faces.map (posDegenerate g)
-  -- only the classes of which an instance is missing need a justification
-  (msub tin tout).eraseDups.all fun c =>
+  pointwiseEq tin tout || tin.all fun c =>
     let mIn := tin.count c
     let mOut := tout.count c
-    let d := ((tin.zip degIn).filter fun (t, dg) => dg && t == c).length
+    let d := (tin.zip degIn).countP fun (t, dg) => dg && t == c
     mOut ≥ mIn || (o.removeDegeneratedFaces && mIn - mOut ≤ d) || (o.removeDuplicateFaces && mOut ≥ 1)
 
 /-- no face occurs twice with the same point ids: literally, or — for faces with three different
